@@ -57,6 +57,11 @@ let show_action = function
   | Model.AFill (i, k, d, z) ->
       Printf.sprintf "F%d.%d.%d.%s" (int_of_nat i) (int_of_nat k) (int_of_nat d)
         (match z with None -> "n" | Some b -> tok_of_bytes b)
+  | Model.AHold z -> "H" ^ (match z with None -> "n" | Some b -> tok_of_bytes b)
+
+let action_column = function
+  | Model.ACopy i | Model.AFill (i, _, _, _) -> string_of_int (int_of_nat i)
+  | Model.AHold _ -> "-1"
 
 let guard f = try f () with Parse m -> "ERR parse " ^ m
 
@@ -88,6 +93,7 @@ let () =
         let s = parse_schema src and t = parse_schema tgt in
         (match mode with
          | "fixed" -> tok_of_list show_action (Model.plan_bytes s t O O)
+         | "columns" -> tok_of_list action_column (Model.plan_bytes s t O O)
          | "pinned" ->
              tok_of_list (fun a -> match Model.pinned_column a with Some i -> string_of_int (int_of_nat i) | None -> "-1")
                (Model.plan_pinned_bytes s t)
